@@ -29,6 +29,8 @@ def count_true(b, j):
         if ctx is not None:
             ctx.note_cnt(b.arr)
         return _cnt(b.arr, lift(j))
+    if hasattr(b, 'materialize') and getattr(b, 'arr', None) is None:
+        b.materialize(getattr(smt, 'CURRENT_CTX', None), 'mat')
     if hasattr(b, 'arr') and b.arr is not None and not isinstance(b, NList):
         ctx = getattr(smt, 'CURRENT_CTX', None)
         if ctx is not None:
